@@ -134,8 +134,10 @@ fn main() {
                     .collect();
                 let used: Vec<usize> = tidx.iter().copied().filter(|x| *x != usize::MAX).collect();
                 let start_nt_of_cfg: usize = a.user_start[1..].parse().unwrap();
-                for _ in 0..per_grammar {
-                    let mut kinds: Vec<Option<usize>> = match r.below(10) {
+                for input_no in 0..per_grammar {
+                    // the first inputs of every grammar are unmodified sampled sentences
+                    let pure = input_no < 8;
+                    let mut kinds: Vec<Option<usize>> = match if pure { 0 } else { r.below(10) } {
                         0..=5 => match { let b = 2 + r.below(30); cfg.sample(&mut r, start_nt_of_cfg, b) } {
                             Some(s) => s.iter().map(|t| Some(tidx[*t])).collect(),
                             None => vec![],
@@ -147,13 +149,13 @@ fn main() {
                     };
                     kinds.retain(|k| *k != Some(usize::MAX));
                     // truncation: proper prefixes exercise the end-of-input error paths
-                    if r.chance(1, 6) && !kinds.is_empty() {
+                    if !pure && r.chance(1, 6) && !kinds.is_empty() {
                         let keep = r.below(kinds.len());
                         kinds.truncate(keep);
                         h.hit("input:truncated");
                     }
                     // a burst of junk (several consecutive dropped tokens during recovery)
-                    if r.chance(1, 8) && !used.is_empty() {
+                    if !pure && r.chance(1, 8) && !used.is_empty() {
                         let j = r.below(kinds.len() + 1);
                         for _ in 0..2 + r.below(3) {
                             kinds.insert(j, Some(*r.pick(&used)));
@@ -161,12 +163,12 @@ fn main() {
                         h.hit("input:burst");
                     }
                     // mutations
-                    let muts = match r.below(4) {
+                    let muts = if pure { 0 } else { match r.below(4) {
                         0 => 0,
                         1 => 1,
                         2 => 1,
                         _ => 2,
-                    };
+                    } };
                     for _ in 0..muts {
                         match r.below(4) {
                             0 if !kinds.is_empty() => {
@@ -191,14 +193,27 @@ fn main() {
                         }
                     }
                     let mut items = spans(&mut r, &kinds);
-                    if r.chance(1, 10) {
+                    if !pure && r.chance(1, 10) {
                         let j = r.below(items.len() + 1);
                         items.insert(j, StreamItem::Err(r.below(50) as u64));
                         h.hit("input:stream-error");
                     }
-                    let fail_at = if r.chance(1, 6) { Some(r.below(6)) } else { None };
+                    let fail_at = if !pure && r.chance(1, 6) { Some(r.below(6)) } else { None };
                     let start_loc = if r.chance(1, 5) { r.range(-3, 3) } else { 0 };
                     let out = drive_real(&tables, &items, fail_at, start_loc);
+                    // property-level oracle that needs no tables: a short token string must be accepted iff the
+                    // table-independent recognizer derives it (sampled sentences of LR(1)-not-LALR grammars included)
+                    if validate && !tables.recovery && fail_at.is_none() && items.len() <= 12
+                        && items.iter().all(|i| matches!(i, StreamItem::Tok(_, Some(k), _) if *k < tables.nterm))
+                    {
+                        let ks: Vec<String> = items.iter().map(|i| if let StreamItem::Tok(_, Some(k), _) = i { k.to_string() } else { String::new() }).collect();
+                        let verdict = if out.starts_with("ok ") { "yes" } else if out.starts_with("err ") { "no" } else { "crash" };
+                        st.case(&format!("member kinds={}", ks.join(",")), verdict);
+                        members += 1;
+                        if verdict == "yes" {
+                            members_yes += 1;
+                        }
+                    }
                     h.hit(&format!("outcome:{}", out.split(|c| c == ' ' || c == '(').take(2).collect::<Vec<_>>().join(" ")));
                     h.hit(&format!("len:{}", items.len().min(20)));
                     if out == "budget" && hangs.len() < 5 {
